@@ -150,6 +150,9 @@ func newL1World(rt *rapid.T, cfg l1Cfg) *l1World {
 	if cfg.manyBridges && rapid.IntRange(0, 7).Draw(rt, "many") == 0 {
 		// a chain that already hosts many bridges: operations then work on the first two and the last two
 		n := rapid.IntRange(65, 140).Draw(rt, "nbridges")
+		if rapid.IntRange(0, 2).Draw(rt, "past255") == 0 {
+			n = rapid.IntRange(255, 258).Draw(rt, "nbridges255") // bridge ids whose low byte is 0xfe, 0xff, 0x00, 0x01
+		}
 		for i := 0; i < n; i++ {
 			p, ch := w.users[i%len(w.users)], w.users[(i+1)%len(w.users)]
 			period := cfg.periods[i%len(cfg.periods)]
@@ -259,6 +262,9 @@ func (w *l1World) opCreate(rt *rapid.T, forceValid ...bool) *l1Step {
 	period := w.cfg.periods[rapid.IntRange(0, len(w.cfg.periods)-1).Draw(rt, "period")]
 	cfg := henv.DefaultBridgeConfig(prop.Str, chal.Str, period)
 	cfg.BatchInfo.Submitter = w.user(rt, "submitter").Str
+	if rapid.IntRange(0, 2).Draw(rt, "celestia") == 0 {
+		cfg.BatchInfo.ChainType = ophosttypes.BatchInfo_CHAIN_TYPE_CELESTIA // the other supported data-availability chain
+	}
 	cfg.Metadata = drawMetadataBytes(rt)
 	expect := "valid"
 	if len(cfg.Metadata) > ophosttypes.MaxMetadataLength {
@@ -422,6 +428,10 @@ func (w *l1World) newTuple(rt *rapid.T, b *mBridge) wd {
 	case 4, 5:
 		// ... to a module account of L1 (the community pool's, the fee collector's)
 		t.To = rapid.SampledFrom([]sdk.AccAddress{w.feePool, w.feeCollector}).Draw(rt, "wmodule").String()
+	case 6, 7, 8:
+		// the L2 user spelled the recipient in upper case (L2 takes the string as it is, L1 decodes it): this
+		// spelling is the committed one, it is paid once to the account it decodes to
+		t.To = strings.ToUpper(t.To)
 	}
 	// mostly withdraw what the escrow can pay (an L2 can only burn what was deposited)
 	if rapid.IntRange(0, 9).Draw(rt, "funded") < 8 {
@@ -606,6 +616,10 @@ func (w *l1World) bulkPropose(rt *rapid.T, b *mBridge, n int) {
 		o.Index, o.L2Block, o.At, o.Height = index, l2b, w.e.Ctx.BlockTime(), w.e.Ctx.BlockHeight()
 		b.Outputs = append(b.Outputs, o)
 		b.LastPropose, b.LastProposeOut = msg, o
+		if n > 1000 && k == 5 && b.Period < 24*time.Hour {
+			// a long-lived bridge: its first outputs are final long before the thousandth is proposed
+			w.e.Advance(b.Period + time.Second)
+		}
 	}
 	w.logf("bulk: %d further outputs proposed on bridge %d (now %d)", n, b.ID, len(b.Outputs))
 }
@@ -724,7 +738,11 @@ func (w *l1World) opClaim(rt *rapid.T) *l1Step {
 		}
 	case "respell":
 		// the same account under another valid spelling of its address: not the committed withdrawal
-		t.To = strings.ToUpper(t.To)
+		if t.To == strings.ToUpper(t.To) {
+			t.To = strings.ToLower(t.To)
+		} else {
+			t.To = strings.ToUpper(t.To)
+		}
 		okBuilt = false
 	case "foreign":
 		// a tuple that is in the pool but not in this tree
